@@ -8,6 +8,7 @@ from xml.sax.saxutils import quoteattr
 import numpy as np
 from hypothesis import strategies as st
 
+import core
 from core import Violation, guarded, require, scratch_dir
 
 ID = "C20"
@@ -32,6 +33,15 @@ ASSUMPTIONS = [
 ]
 AA = "ACDEFGHIKLMNPQRSTVWY"
 SCORES = ["xcorr", "deltacn", "hyperscore", "nextscore", "spscore", "expect_like"]
+
+
+PRELUDE_DOC = """<?xml version="1.0" encoding="UTF-8"?>
+<msms_pipeline_analysis><msms_run_summary base_name="old" raw_data=".mzML">
+<spectrum_query start_scan="1" end_scan="1" precursor_neutral_mass="500.0" assumed_charge="2" retention_time_sec="1.0">
+<search_result><search_hit hit_rank="1" peptide="OLDPEPTIDEK" protein="OLDPROT" calc_neutral_pep_mass="500.1">
+<search_score name="oldscore" value="-1.5"/></search_hit></search_result></spectrum_query>
+</msms_run_summary></msms_pipeline_analysis>
+"""
 
 
 def budget(tier):
@@ -160,8 +170,17 @@ def check(case):
     neg = case["negative"]
     with scratch_dir() as tmp:
         paths = []
+        shared = core.scratch_root() / "c20_shared"
+        shared.mkdir(exist_ok=True)
         for i, f in enumerate(case["files"]):
-            p = tmp / f"f{i}.pep.xml"
+            # history: the same path held another document that was parsed before (per-path state must not leak)
+            p = shared / f"f{i}.pep.xml"
+            if neg == "none":
+                p.write_text(PRELUDE_DOC)
+                try:
+                    mokapot.read_pepxml(str(p), to_df=True)
+                except Exception:  # noqa: BLE001
+                    pass
             p.write_text("this is not xml at all\njust text\n" if (neg == "notxml" and i == 0) else render(f, case))
             paths.append(str(p))
         arg = paths if len(paths) > 1 else paths[0]
